@@ -51,7 +51,7 @@ def check(run):
     check_ctor_derived(run, 'C18-R7', prog, eff, sorted(scope, key=lambda c_: c_.qual))
     run.subject('C18-R7')
     run.ok('C18-R7', 'memo rules', 'self-check on the built-in examples passed', sample=False)
-    run.include('C01', {'cherab/core/laser/node.pyx', 'cherab/core/laser/laserspectrum.pyx', 'cherab/core/laser/profile.pyx', 'cherab/core/laser/material.pyx'},
+    run.include('C01', {'cherab/core/laser/node.pyx', 'cherab/core/laser/laserspectrum.pyx', 'cherab/core/laser/profile.pyx', 'cherab/core/laser/material.pyx', 'cherab/core/utility/notify.py'},
                 'the laser node rebuilds its segments and materials when the profile, spectrum or models change')
     from ..cachekey import check_caches
     check_caches(run, [m_ for m_ in prog.modules.values() if m_.relpath in set(FILES) and not m_.name.endswith('#pxd')], 'C18-K', prog=prog)
